@@ -9,9 +9,24 @@ TRUST = ("go/packages + go/types + go/ssa (x/tools v0.29.0) build a faithful typ
 
 # id -> (technique, level text, design ref, note)
 CLAIMS = {
+ "C01": ("inter-procedural must-pass-through (every verification step dominates akeHasFinished on both chains), who-may-write, operand-provenance/polarity of each AKE check by canonical value terms, constant checks of the DH group",
+         "Structural necessary conditions of peer authentication, for all paths of the current source: completion of the exchange is dominated by commitment check, DH range check, MAC and DSA verification of the exchange; each check compares the specified operands with the specified polarity; the signed MAC binds both DH values, key and key id; the key reported is the key verified. Not the behavioural statement (no execution; cryptographic strength and two-party agreement are not decided).",
+         "DESIGN.md §4/C01"),
  "C02": ("inter-procedural must-pass-through (dominance of sinks by check success edges) over go/ssa + VTA call graph; polarity/operand provenance of the MAC comparison; three-valued path enumeration of the key-id lookup",
          "Structural necessary condition, decided for all paths of the current source: plaintext return, TLV handling, key rotation and counter store of an incoming data message are dominated by parse, key lookup (current/previous only), MAC verification over header+exact unsigned bytes and the counter test. Not the behavioural statement itself (no execution, cryptographic strength assumed).",
          "DESIGN.md §4/C02"),
+ "C05": ("ordering enumeration of the replay comparison (finite orderings of the two counters) by three-valued path evaluation; must-pass-through of the counter test and MAC; typestate (reset-before-dispatch) on the CFG",
+         "Structural necessary conditions of replay protection: strict-order counter test that stores the accepted counter in the record keyed by the message's key ids, gates before plaintext/TLVs/rotation, retired ids rejected, key context wiped and replaced on a new session, fragment context reset when a completed stream is dispatched. End-to-end at-most-once delivery is not decided.",
+         "DESIGN.md §4/C05"),
+ "C06": ("failure-atomicity effect analysis: access-path write summaries (bottom-up) × rejecting returns with error-origin and error-source provenance, snapshot/restore recognition; must-pass-through commit-point gates; handler error-return typestate",
+         "Structural necessary condition: no function reachable from Receive writes session-visible state on a path that can still end in a rejecting return (other than by the failing step itself), peer key/SSID/highlight commits are behind the signature checks, AKE handlers return the entered state on error. Known genuine deviations (D11, D16 residual, D23) are listed as known findings. Observational equivalence of continuations is not decided.",
+         "DESIGN.md §4/C06"),
+ "C15": ("decision-table extraction of verifyInstanceTags by path enumeration over all orderings of its operands; who-may-write; must-pass-through for dispatch; wire-layout extraction (writer fields vs reader offsets) for header, fragment prefix and ExtractInstanceTags",
+         "Structural necessary conditions of instance-tag isolation: own tag stored only after the >=0x100 loop exit and a successful random draw; the tag check's decision table equals the specified one on all orderings and adopts the sender tag only on accepting paths; foreign-instance traffic returns before any handler; writers and the three readers of the tags agree on offsets and order. Whole-history behaviour is not decided.",
+         "DESIGN.md §4/C15"),
+ "C16": ("decision-table extraction of version commitment over policy × offer × committed; must-pass-through of checkVersion; per-version emission constants; escape/alias analysis of buffers wiped on exit; value-term check of whitespace-tag removal",
+         "Structural necessary conditions: v3 preferred over v2 under policy, sticky, nothing committed on failure; other-version messages rejected before parsing/dispatch; offered versions follow policy; disabled OTR returns a copy and does nothing else; no returned plaintext aliases the wiped local buffer; tag extraction keeps the surrounding text. The two-party negotiation outcome is not decided.",
+         "DESIGN.md §4/C16"),
 }
 
 NA = {}
